@@ -1,5 +1,6 @@
 import HdVerif.Proofs.SREvidence
 import HdVerif.Proofs.SREvidenceTie
+import HdVerif.Proofs.SRDocument
 import HdVerif.Generated.T15c
 /-! # C15  SR documents carry their content intact with complete evidence
 
@@ -938,5 +939,148 @@ example : Gen.segRefMerge false true false = .ok 1 ∧ Gen.segRefMerge false fal
   decide
 example : Gen.srEvidenceGuard (exArgs .comprehensive3d true).evidence.length = .ok true ∧ Gen.srContentGuard 2 = .error .value ∧
     Gen.srRecordOther false 3 = .ok false ∧ Gen.srRecordOther true 3 = .ok true ∧ Gen.srRecordOther true 0 = .ok false := by decide
+
+/-! ## the options of the constructors (round 2) -/
+
+/-- **Every option lands where it belongs, and only there.**  For a document built by any of the three classes with any
+combination of options: the three flags are the flag options (values regenerated from `_SR.__init__`, T15i), a verifying
+observer item exists iff the document is marked verified and then carries exactly the observer name and organization given,
+the institution is the institution given, the department is recorded only together with an institution (the behaviour of the
+code: `institutional_department_name` without `institution_name` is dropped), the performed procedure codes are the codes
+given (an empty sequence when none), the requested procedures are the items given, and the evidence part is the decision
+core's (`buildSR`, all evidence theorems apply).  Tie: `Gen.srCompletionFlag`, `Gen.srPreliminaryFlag`,
+`Gen.srVerificationFlag`, `Gen.srInstitutionStored`, `Gen.srSupportedTransferSyntaxes` are regenerated (T15i); which argument
+is stored in which attribute is the table `Gen.srInitAttrWrites` (`option_dataflow_is_the_source_dataflow`); stream `doc` /
+`options` of the correspondence compares every one of these attributes (L1). -/
+theorem options_reflected (o : Options) (a : DocArgs) (D : DocDs) (h : constructSR o a = .ok D) :
+    buildSR (o.core a) = .ok D.doc ∧
+    D.completion = (if o.isComplete then "COMPLETE" else "PARTIAL") ∧
+    D.preliminary = (if o.isFinal then "FINAL" else "PRELIMINARY") ∧
+    D.verification = (if a.verified then "VERIFIED" else "UNVERIFIED") ∧
+    (a.verified = true → ∃ n g, o.observer = some n ∧ o.organization = some g ∧ D.observers = [⟨n, g⟩]) ∧
+    (a.verified = false → D.observers = []) ∧
+    D.institution = o.institution ∧
+    D.department = (if o.institution.isSome then o.department else none) ∧
+    D.procedureCodes = o.procedureCodes.getD [] ∧
+    D.requested = o.requested := by
+  rw [constructSR_eq] at h
+  split at h
+  · cases h
+  split at h
+  · cases h
+  cases hb : buildSR (o.core a) with
+  | error e => rw [hb] at h; cases h
+  | ok d =>
+    rw [hb] at h
+    simp only [Except.ok.injEq] at h
+    subst h
+    refine ⟨rfl, rfl, rfl, rfl, ?_, ?_, ?_, ?_, ?_, rfl⟩
+    · intro hv
+      obtain ⟨h1, h2⟩ := buildSR_verified_details _ d hb (by simpa [Options.core] using hv)
+      simp only [Options.core] at h1 h2
+      cases ho : o.observer with
+      | none => simp [ho] at h1
+      | some n =>
+        cases hg : o.organization with
+        | none => simp [hg] at h2
+        | some g => exact ⟨n, g, rfl, rfl, by simp [hv]⟩
+    · intro hv; simp [hv]
+    · cases o.institution <;> rfl
+    · cases o.institution <;> cases o.department <;> rfl
+    · cases o.procedureCodes <;> rfl
+
+/-- **Verification details are demanded whatever else is passed**: no value of any other option (institution, department,
+flags, procedure codes, requested procedures, transfer syntax, …) makes a document marked verified acceptable without an
+observer name AND an organization. -/
+theorem verification_details_demanded_whatever_else (o : Options) (a : DocArgs) (hv : a.verified = true)
+    (hmiss : o.observer = none ∨ o.organization = none) : ∀ D, constructSR o a ≠ .ok D := by
+  intro D h
+  obtain ⟨_, _, _, _, hobs, _⟩ := options_reflected o a D h
+  obtain ⟨n, g, h1, h2, _⟩ := hobs hv
+  rcases hmiss with h' | h'
+  · rw [h'] at h1; cases h1
+  · rw [h'] at h2; cases h2
+
+/-- **Acceptance with options**: a construction succeeds iff the transfer syntax is one of the supported ones (list
+regenerated from `_SR.__init__`) and the decision core accepts (`accepted_iff` characterises that completely within the
+model's scope, with "observer given" / "organization given" read off the options themselves). -/
+theorem constructed_iff (o : Options) (a : DocArgs) :
+    (∃ D, constructSR o a = .ok D) ↔
+      o.transferSyntax ∈ Gen.srSupportedTransferSyntaxes ∧ ∃ d, buildSR (o.core a) = .ok d := by
+  rw [constructSR_eq]
+  constructor
+  · rintro ⟨D, h⟩
+    split at h
+    · cases h
+    split at h
+    · cases h
+    rename_i hts
+    cases hb : buildSR (o.core a) with
+    | error e => rw [hb] at h; cases h
+    | ok d => exact ⟨by simpa using hts, d, rfl⟩
+  · rintro ⟨hts, d, hd⟩
+    have hev : a.evidence.isEmpty = false := by
+      cases hh : a.evidence.isEmpty with
+      | false => rfl
+      | true =>
+        have : (o.core a).evidence.isEmpty = true := hh
+        unfold buildSR at hd
+        simp [this] at hd
+    have hts' : Gen.srSupportedTransferSyntaxes.contains o.transferSyntax = true := by simpa using hts
+    simp only [hev, hts', hd]
+    exact ⟨_, rfl⟩
+
+/-- **The options reach the guards unchanged** (a statement about tables regenerated from `sr/sop.py` on every run, T15i — a
+trip-wire in the sense of AGENT_GUIDE §3a: it fails as soon as the source re-binds an option, forwards another expression or
+stores another value).  (1) The only parameter any of the four constructors re-binds is `content` (a sequence of one item is
+replaced by the item); in particular `verifying_observer_name`, `verifying_organization`, `is_verified` reach the
+verification guard as passed.  (2) Each public class forwards every parameter of `_SR.__init__` under its own name
+(`sop_class_uid` is the class's storage UID; `Comprehensive3DSR` passes `transfer_syntax_uid` through `**kwargs`).
+(3) The verifying observer item stores exactly `verifying_observer_name` / `verifying_organization`, and only in the verified
+branch; institution, department, requested procedures and performed procedure codes are stored from their own arguments. -/
+theorem option_dataflow_is_the_source_dataflow :
+    Gen.srInitRebound = [("_SR", "content", "isinstance(content, DataElementSequence)", "content[0]")] ∧
+    (["EnhancedSR", "ComprehensiveSR", "Comprehensive3DSR"].all fun cls => Gen.srOptionNames.all fun opt =>
+      opt == "sop_class_uid" || (cls == "Comprehensive3DSR" && opt == "transfer_syntax_uid") ||
+      (Gen.srForwarded.filter (fun r => r.1 == cls && r.2.1 == opt)) == [(cls, opt, opt)]) = true ∧
+    (Gen.srForwarded.filter (fun r => r.2.1 == "sop_class_uid")).map (·.2.2) =
+      ["EnhancedSRStorage", "ComprehensiveSRStorage", "Comprehensive3DSRStorage"] ∧
+    (["EnhancedSR", "ComprehensiveSR", "Comprehensive3DSR"].all fun cls => Gen.srForwarded.contains (cls, "**", "kwargs")) = true ∧
+    (Gen.srInitAttrWrites.filter (fun r => r.1.startsWith "observer_item.Verifying")) =
+      [("observer_item.VerifyingObserverName", "is_verified", "verifying_observer_name"),
+       ("observer_item.VerifyingOrganization", "is_verified", "verifying_organization"),
+       ("observer_item.VerifyingObserverIdentificationCodeSequence", "is_verified", "[]")] ∧
+    (Gen.srInitAttrWrites.filter (fun r => r.1 == "self.VerifyingObserverSequence")) =
+      [("self.VerifyingObserverSequence", "is_verified", "[observer_item]")] ∧
+    (Gen.srInitAttrWrites.filter (fun r => r.1.startsWith "self.Institution")) =
+      [("self.InstitutionName", "institution_name is not None", "institution_name"),
+       ("self.InstitutionalDepartmentName", "institution_name is not None and institutional_department_name is not None",
+        "institutional_department_name")] ∧
+    (Gen.srInitAttrWrites.filter (fun r => r.1 == "self.ReferencedRequestSequence")) =
+      [("self.ReferencedRequestSequence", "requested_procedures is not None", "requested_procedures")] ∧
+    (Gen.srInitAttrWrites.filter (fun r => r.1 == "self.PerformedProcedureCodeSequence")) =
+      [("self.PerformedProcedureCodeSequence", "performed_procedure_codes is not None",
+        "[CodedConcept.from_code(c) for c in performed_procedure_codes]"),
+       ("self.PerformedProcedureCodeSequence", "not (performed_procedure_codes is not None)", "[]")] := by
+  decide +kernel
+
+/-- non-vacuity: a verified Comprehensive 3D document with every option given; the same without organization but WITH an
+institution (refused); an unsupported transfer syntax (refused) -/
+def exOptions : Options :=
+  { isComplete := true, isFinal := false, observer := some "Smith^John", organization := some "Org",
+    institution := some "Hospital", department := some "Radiology", procedureCodes := some ["77477000|SCT|CT"],
+    requested := some ["RP0"] }
+example : (constructSR exOptions (exArgs .comprehensive3d true)).map
+      (fun D => (D.completion, D.preliminary, D.verification, D.observers)) =
+    .ok ("COMPLETE", "PRELIMINARY", "VERIFIED", [⟨"Smith^John", "Org"⟩]) := by decide
+example : (constructSR exOptions (exArgs .comprehensive3d true)).map
+      (fun D => (D.institution, D.department, D.procedureCodes, D.requested)) =
+    .ok (some "Hospital", some "Radiology", ["77477000|SCT|CT"], some ["RP0"]) := by decide
+example : (constructSR { exOptions with organization := none } (exArgs .comprehensive3d true)).toBool = false := by decide
+example : (constructSR { exOptions with institution := none } (exArgs .comprehensive3d true)).map (fun D => (D.institution, D.department)) =
+    .ok (none, none) := by decide
+example : (constructSR { exOptions with transferSyntax := "1.2.840.10008.1.2.4.50" } (exArgs .comprehensive3d true)).toBool = false := by
+  decide
+example : (constructSR { exOptions with transferSyntax := "1.2.840.10008.1.2" } (exArgs .comprehensive3d true)).toBool = true := by decide
 
 end HdVerif.C15
